@@ -10,9 +10,11 @@ use stats_ci::Confidence;
 
 pub fn conf(kind: Kind, level: f64) -> Confidence {
     match kind {
-        Kind::Two => Confidence::new_two_sided(level),
-        Kind::Upper => Confidence::new_upper(level),
-        Kind::Lower => Confidence::new_lower(level),
+        // built from the public variants: the constructors are C18's subject, and a
+        // constructor that wrongly panics must not take the other checks down with it
+        Kind::Two => Confidence::TwoSided(level),
+        Kind::Upper => Confidence::UpperOneSided(level),
+        Kind::Lower => Confidence::LowerOneSided(level),
     }
 }
 
